@@ -322,13 +322,14 @@ Theorem parse_printed lvl e : efrag lvl e = true -> wf false e = true -> paren_o
   exists Tn ns,
     parse (ttoks e) = Ok (nid Tn, ns) /\
     Compile.tree_of ns (nid Tn) = Some (img Tn) /\
-    denotes ns None Tn /\ ordered Tn /\ rep e 0 Tn.
+    denotes ns None Tn /\ ordered Tn /\ rep e 0 Tn /\ (forall j, j < length ns -> has_id Tn j).
 Proof.
   intros F Wf P. pose proof (pratt_printed lvl e F P) as Hpr.
-  destruct (pratt_parse _ _ Hpr) as (Tn & ns & its & Hits & _ & Hins & Hp & DT & OT & _ & _ & ET).
+  destruct (pratt_parse _ _ Hpr) as (Tn & ns & its & Hits & _ & Hins & Hp & DT & OT & _ & Cov & ET).
   rewrite (trim_printed lvl e F) in Hits, ET. cbn [fst snd] in Hits, ET. rewrite shift_rtree_0 in ET.
   rewrite (items_of_printed lvl e F) in Hits. injection Hits as <-.
   exists Tn, ns. split; [exact Hp|]. split; [eapply denotes_tree_of; eauto|]. split; [exact DT|]. split; [exact OT|].
+  split; [|exact Cov].
   eapply (erase_rep lvl e false); [exact F|apply (wf_acc_ok lvl); assumption| |symmetry; exact ET].
   eapply spine_insert_pfix; [apply (eitems_noprop lvl); exact F|exact Hins].
 Qed.
